@@ -79,7 +79,7 @@ CHECKS = {
             'reads/writes and yields; monitors: negotiated-state equality and byte-stream conservation of a counter pattern',
             '3 protocols x {server-auth, mutual, offered-not-requested} x chain depth 1..3 x trust stores of 1..4 roots, several seeded I/O fragmentation schedules each, and sessions against independent pure-Python peers; both '
             'handshakes must return 1 with identical secrets/keys/IVs/suite/version; write sizes 1..50000 and read buffers '
-            '1..20000 in one-way and alternating plans; every byte must arrive once, in order, unmodified; nothing may '
+            '1..20000 in one-way, alternating, echo and simultaneous-writer plans; every byte must arrive once, in order, unmodified; nothing may '
             'surface after an orderly close.',
             '4/C08', TRUSTED),
     'C09': ('exploration',
@@ -92,7 +92,7 @@ CHECKS = {
             'issuer without basicConstraints / cA=FALSE / no keyCertSign (incl. above the first CA), end-entity as issuer, '
             'bad certificate signatures, leaf signed by another key, issuer-name mismatch, unknown critical extension, '
             'certificate/private-key mismatch (sign key, TLCP encryption key), untrusted TLCP encryption certificate, '
-            'missing client certificate; the verifier must not return 1 while the defect-free control completes.',
+            'missing client certificate; hostile flows also after a hello without extensions; the ServerKeyExchange signature checked with an independent verifier over the prescribed octets and offered to the library for other points / randoms / curves; the verifier must not return 1 while the defect-free control completes.',
             '4/C09', TRUSTED),
     'C10': ('fault_enumeration',
             'record-aware man-in-the-middle between two real sanitized endpoints, one enumerated fault per handshake; '
@@ -190,10 +190,10 @@ CHECKS = {
             'SM2 key generation/import/sign/decrypt/ECDH, PKCS#8 encrypt/open (right, wrong password, truncated), import of '
             'structurally valid but inconsistent key containers through all four paths, CMS sign/envelop/open and X.509 '
             'signing with known signer, recipient and content keys (good, wrong key, bit flips, padding indicators 0..255 under the right key), SM4-CBC padding failures, SM9 '
-            'keygen/extract/sign/encrypt/decrypt, record unprotection (good and bad records), live receive-failure paths after '
+            'keygen/extract/sign/encrypt/decrypt, SM3-XMSS keygen/sign/verify (and one signature past the last one-time key, in a forked child), PEM format probing on streams holding unencrypted keys, record unprotection (good and bad records), live receive-failure paths after '
             'data was exchanged (truncated / announced-more-than-sent / flipped / replayed records ...); secrets searched: private '
             'scalars (both byte orders), nonces, master secret, key block and slices, TLS 1.3 traffic keys recovered by '
-            'inverting the SM4 key schedule of the connection object, IVs, passwords, plaintexts.',
+            'inverting the SM4 key schedule of the connection object, IVs, passwords, plaintexts; raw, hex and base64 forms.',
             '4/C19', TRUSTED),
     'C20': ('exploration',
             'ThreadSanitizer (gcc, static build of the working tree) on a C stress harness with seeded per-thread scripts '
